@@ -226,7 +226,7 @@ impl Check for C10Check {
     }
     fn cases(&self, tier: Tier) -> u64 {
         match tier {
-            Tier::Quick => 400,
+            Tier::Quick => 800,
             Tier::Thorough => 8_000,
         }
     }
